@@ -234,6 +234,11 @@ def run(ctx):
         check_hash_arity(ctx, fb, cfg)
     ctx.floor("proving-entry-points", n, 10)
     check_range_gate(ctx, ctx.fb("default"))
+    # R12-6 (shared with C05 R05-1): the witness (and so the proof) is computed from this instance's graph and this request alone:
+    # nothing process-wide (a cache of the decoded graph, a thread-local scratch buffer) is reachable from the witness calculation,
+    # so another instance or an earlier failed call cannot make a valid request produce an unverifiable proof
+    from . import c05
+    c05.check_purity(ctx, ctx.fb("default"), rule="R12-6")
     # position outside the tree: the lookup's failure must be propagated
     fb = ctx.fb("default")
     it = fb.need("rln::protocol::proof_inputs_to_rln_witness")
